@@ -814,4 +814,66 @@ theorem run_logInv (ko : KeyOps K) (progs : List (List (Call K))) (sched : List 
   | nil => intro s h; exact h
   | cons t ts ih => intro s h; exact ih _ (step1_logInv ko progs s t h)
 
+/-! ### lock-aware machine: a run of sweep sections only removes entries -/
+
+theorem sub_trans {r1 r2 r3 : Reg K} (h12 : Sub r1 r2) (h23 : Sub r2 r3) : Sub r1 r3 := by
+  refine ⟨h12.mask.trans h23.mask, Nat.le_trans h23.next h12.next, fun kd => (h12.len kd).trans (h23.len kd), ?_⟩
+  intro kd i sh1 h1
+  obtain ⟨sh2, h2, s12⟩ := h12.sub kd i sh1 h1
+  obtain ⟨sh3, h3, s23⟩ := h23.sub kd i sh2 h2
+  exact ⟨sh3, h3, s12.trans s23⟩
+
+/-- replacing shard `idx` by a sublist of what it held only removes entries -/
+theorem sub_setIdx (r : Reg K) (kd : Kind) (idx : Nat) (sh' : Shard K)
+    (hsub : sh'.Sublist ((r.get kd).getD idx [])) : Sub (r.setIdx kd idx sh') r := by
+  refine ⟨by simp [Reg.setIdx], by simp [Reg.setIdx], ?_, ?_⟩
+  · intro kd'
+    simp only [Reg.setIdx, get_set]
+    split
+    · next hk => subst hk; rw [setAt_length]
+    · rfl
+  · intro kd' i sh1 h1
+    simp only [Reg.setIdx, get_set] at h1
+    by_cases hk : kd' = kd
+    · subst hk
+      rw [if_pos rfl, getElem?_setAt] at h1
+      by_cases hc : idx = i ∧ i < (r.get kd').length
+      · rw [if_pos hc] at h1
+        injection h1 with h1
+        subst h1
+        obtain ⟨rfl, hlt⟩ := hc
+        refine ⟨(r.get kd')[idx], List.getElem?_eq_getElem hlt, ?_⟩
+        simpa [List.getD, List.getElem?_eq_getElem hlt] using hsub
+      · rw [if_neg hc] at h1
+        exact ⟨sh1, h1, List.Sublist.refl _⟩
+    · rw [if_neg hk] at h1
+      exact ⟨sh1, h1, List.Sublist.refl _⟩
+
+theorem sweepSection_sub (c : LCall K) (r : Reg K) (kd : Kind) (idx : Nat) (acc : List (K × Nat)) :
+    Sub (sweepSection c r kd idx ((r.get kd).getD idx []) acc).1 r := by
+  cases c with
+  | clear => exact sub_setIdx r kd idx [] (List.nil_sublist _)
+  | retain kd' f h => exact sub_setIdx r kd idx _ List.filter_sublist
+  | visit kd' h => exact sub_refl r
+  | goc kd' k => exact sub_refl r
+  | get kd' k => exact sub_refl r
+  | delete kd' k => exact sub_refl r
+
+theorem sweepRun_sub (c : LCall K) (hold : Bool) (others : List Lock) (fuel : Nat) :
+    ∀ (r : Reg K) (acc : List (K × Nat)) (kd : Kind) (idx : Nat), Sub (sweepRun c hold others fuel r acc kd idx).1 r := by
+  induction fuel with
+  | zero => intro r acc kd idx; exact sub_refl r
+  | succ n ih =>
+    intro r acc kd idx
+    unfold sweepRun
+    split
+    · exact sub_refl r
+    · have hs := sweepSection_sub c r kd idx acc
+      simp only
+      split
+      · exact hs
+      · split
+        · exact hs
+        · exact sub_trans (ih _ _ _ _) hs
+
 end MetricsVerif.Registry
